@@ -1,17 +1,18 @@
 mod test;
 
-use hashbrown::HashMap;
+use std::collections::BTreeMap;
 
 use serde_json::Value;
 
-#[derive(Debug, Clone)]
+#[derive(Debug, Clone, Default)]
 pub struct FlattenConfigObject {
-    config: HashMap<String, Value>,
+    // ordered, so that rebuilding the nested json does not depend on hash order
+    config: BTreeMap<String, Value>,
 }
 
 impl FlattenConfigObject {
     pub fn parse(luals_json: Value) -> Self {
-        let mut config = HashMap::new();
+        let mut config = BTreeMap::new();
         flatten_object("", &luals_json, &mut config);
         Self { config }
     }
@@ -21,7 +22,7 @@ impl FlattenConfigObject {
     }
 }
 
-fn flatten_object(prefix: &str, val: &Value, config: &mut HashMap<String, Value>) {
+fn flatten_object(prefix: &str, val: &Value, config: &mut BTreeMap<String, Value>) {
     match val {
         Value::Object(map) => {
             for (k, v) in map.iter() {
@@ -42,20 +43,19 @@ fn flatten_object(prefix: &str, val: &Value, config: &mut HashMap<String, Value>
 fn to_emmyrc_json(config: &FlattenConfigObject) -> Value {
     let mut emmyrc = Value::Object(Default::default());
     for (k, v) in &config.config {
-        let keys: Vec<&str> = k.split('.').collect();
         let mut current = &mut emmyrc;
-        for i in 0..keys.len() {
-            let key = keys[i];
-            if i == keys.len() - 1 {
-                current[key] = v.clone();
-            } else {
-                current = current
-                    .as_object_mut()
-                    .expect("always an object")
-                    .entry(key.to_string())
-                    .or_insert(Value::Object(Default::default()));
+        for key in k.split('.') {
+            // a key can be both a value and a prefix (`{"a": 1, "a.b": 2}`): the longer key wins
+            if !current.is_object() {
+                *current = Value::Object(Default::default());
             }
+            current = current
+                .as_object_mut()
+                .expect("always an object")
+                .entry(key.to_string())
+                .or_insert(Value::Null);
         }
+        *current = v.clone();
     }
     emmyrc
 }
